@@ -332,6 +332,8 @@ def main(R):
     check_elem(R, ok)
     check_protocol(R, ok)
     check_writeback_rule(R, ok)
+    check_writeback_tree(R, ok)
+    check_key_blocks(R, ok)
 
 
 def check_reused_cm(R, sps):
@@ -912,6 +914,305 @@ def check_writeback_rule(R, ok):
             R.mismatch("writeback-rule", case, obs, mm)
 
 
+# ------------------------------------------------------------------ write-back on trees (Model/C17_Tree.v)
+_TKEYS = ["a", "b", "n", "m", "z"]
+
+
+def gen_tree(rng, depth, counter):
+    """nested dict: leaf = ["leaf", sid, content], node = {"k": tree}"""
+    out = {}
+    for k in _TKEYS:
+        r = rng.random()
+        if r < 0.45:
+            continue
+        if depth > 0 and r > 0.8:
+            out[k] = gen_tree(rng, depth - 1, counter)
+        else:
+            counter[0] += 1
+            out[k] = ["leaf", counter[0], 10 + counter[0]]
+    items = list(out.items())
+    rng.shuffle(items)
+    return dict(items)
+
+
+def mutate_tree(rng, t, counter, depth):
+    """the yielded object after the inverse: same structure with new leaf objects / contents, some entries dropped, some new
+    leaves and nested entries, rarely a leaf where the original has a node or the reverse"""
+    out = {}
+    for k, v in t.items():
+        r = rng.random()
+        if r < 0.15:
+            continue
+        if isinstance(v, dict):
+            if r > 0.95:
+                counter[0] += 1
+                out[k] = ["leaf", 100 + counter[0], 500 + counter[0]]
+            else:
+                out[k] = mutate_tree(rng, v, counter, depth - 1)
+        else:
+            counter[0] += 1
+            if r > 0.96 and depth > 0:
+                out[k] = {"q": ["leaf", 100 + counter[0], 500 + counter[0]]}
+            else:
+                out[k] = ["leaf", 100 + counter[0], 500 + counter[0]]
+    for k in _TKEYS:
+        if k not in out and k not in t and rng.random() < 0.25:
+            counter[0] += 1
+            out[k] = ["leaf", 100 + counter[0], 500 + counter[0]] if rng.random() < 0.6 or depth <= 0 else \
+                {"q": ["leaf", 100 + counter[0], 500 + counter[0]]}
+    items = list(out.items())
+    rng.shuffle(items)
+    return dict(items)
+
+
+def tree_sx(t):
+    if isinstance(t, dict):
+        return [Sym("node")] + [[Sym(k), tree_sx(v)] for k, v in t.items()]
+    return [Sym("leaf"), t[1], t[2]]
+
+
+def tree_td(t, ids):
+    src = {}
+    for k, v in t.items():
+        if isinstance(v, dict):
+            src[k] = tree_td(v, ids)
+        else:
+            x = torch.full((2,), v[2], dtype=torch.int64)
+            ids[x.data_ptr()] = v[1]
+            ids.setdefault("keep", []).append(x)
+            src[k] = x
+    return TensorDict(src, batch_size=[2])
+
+
+def td_tree(td, ids):
+    out = {}
+    for k in td.keys():
+        v = td.get(k)
+        if isinstance(v, torch.Tensor):
+            out[k] = ["leaf", ids.get(v.data_ptr(), -1), int(v[0])]
+        else:
+            out[k] = td_tree(v, ids)
+    return out
+
+
+def model_tree(m):
+    """parsed (node (k tree) ...) -> the same nested form"""
+    if m[0] == "leaf":
+        return ["leaf", m[1], m[2]]
+    return {kv[0]: model_tree(kv[1]) for kv in m[1:]}
+
+
+def tree_skel(t):
+    return {k: (tree_skel(v) if isinstance(v, dict) else v[1]) for k, v in t.items()}
+
+
+def tree_compatible(a, b):
+    """no path where one side has a leaf and the other a node"""
+    for k, v in b.items():
+        if k in a:
+            if isinstance(v, dict) != isinstance(a[k], dict):
+                return False
+            if isinstance(v, dict) and not tree_compatible(a[k], v):
+                return False
+    return True
+
+
+def frame_ok(before, inv, after):
+    """model-free: an entry of the original the yielded object does not have, at any depth reached through nodes that both
+    have, is still there, the same object with the same content"""
+    for k, v in before.items():
+        if k not in inv:
+            if not isinstance(after, dict) or after.get(k) != v:
+                return False
+        elif isinstance(v, dict) and isinstance(inv[k], dict):
+            if not isinstance(after, dict) or not frame_ok(v, inv[k], after.get(k)):
+                return False
+    return True
+
+
+def run_writeback_tree_case(locked, out_t, inv_t):
+    ids = {}
+    out = tree_td(out_t, ids)
+    inv = tree_td(inv_t, ids)
+    if locked:
+        out.lock_()
+    r = call(lambda: out.update_(inv) if locked else out.update(inv, inplace=False))
+    if r[0] != "ok":
+        return "raise"
+    return td_tree(out, ids)
+
+
+def check_writeback_tree(R, ok):
+    cases = []
+    for _ in range(300 if R.quick else 5000):
+        cnt = [0]
+        out_t = gen_tree(R.rng, 2, cnt)
+        inv_t = mutate_tree(R.rng, out_t, cnt, 2)
+        cases.append((R.rng.random() < 0.5, out_t, inv_t))
+    lines = [sx([Sym("writeback_t"), bool(lk), tree_sx(o), tree_sx(i)]) for (lk, o, i) in cases]
+    mres = R.model(lines) if ok else [None] * len(lines)
+    for ci, (lk, o, i) in enumerate(cases):
+        case = {"op": "writeback-tree", "stream": "writeback-tree", "locked": lk, "out": o, "inv": i}
+        compat = tree_compatible(o, i)
+        R.case(("writeback-tree", lk, json.dumps(o), json.dumps(i)), nontrivial=bool(i), sample=case if ci % 101 == 0 else None)
+        R.count("writeback-tree:" + ("locked" if lk else "unlocked") + ("" if compat else ":leaf-vs-node"))
+        R.traces += 1
+        obs = run_writeback_tree_case(lk, o, i)
+        if obs != "raise":
+            if lk and tree_skel(obs) != tree_skel(o):
+                R.oracle_fail("writeback-tree:locked-not-in-place", case, {"after": obs}, {"op": "writeback-tree", "kind": "inplace"})
+            if not lk and list(obs) != list(o) + [k for k in i if k not in o]:
+                R.oracle_fail("writeback-tree:unlocked-keys", case, {"after": obs}, {"op": "writeback-tree", "kind": "keys"})
+            if not lk and not frame_ok(o, i, obs):
+                R.oracle_fail("writeback-tree:frame", case, {"after": obs}, {"op": "writeback-tree", "kind": "frame"})
+        elif not lk and compat:
+            R.oracle_fail("writeback-tree:unlocked-raises", case, {}, {"op": "writeback-tree", "kind": "raises"})
+        m = mres[ci]
+        if m is None:
+            continue
+        if not compat and lk:
+            R.count("writeback-tree:outside-model(leaf-vs-node,locked)")
+            continue
+        mm = "raise" if m == "none" else model_tree(m[1])
+        if mm != obs or (mm != "raise" and list(mm) != list(obs)):
+            R.mismatch("writeback-tree", case, obs, mm)
+
+
+# ------------------------------------------------------------------ flatten_keys / unflatten_keys blocks (Model/C17_Keys.v)
+_SEPS = [".", ".", "_", "-", "::", "aa"]
+_ATOMS = ["a", "b", "n", "m", "ab", "a.b", "x_y", "a-b", "p::q", "aab"]
+
+
+def gen_key_tree(rng, depth, counter, width=3):
+    out = {}
+    for k in rng.sample(_ATOMS, rng.randint(0, width)):
+        r = rng.random()
+        if depth > 0 and r < 0.4:
+            out[k] = gen_key_tree(rng, depth - 1, counter, 2)
+        else:
+            counter[0] += 1
+            out[k] = ["leaf", counter[0]]
+    return out
+
+
+def ktree_sx(t):
+    if isinstance(t, dict):
+        return [Sym("node")] + [[k, ktree_sx(v)] for k, v in t.items()]
+    return [Sym("leaf"), t[1]]
+
+
+def ktree_td(t, ids):
+    src = {}
+    for k, v in t.items():
+        if isinstance(v, dict):
+            src[k] = ktree_td(v, ids)
+        else:
+            src[k] = _kleaf(v[1], ids)
+    return TensorDict(src, batch_size=[2])
+
+
+def _kleaf(z, ids):
+    x = torch.full((2,), z, dtype=torch.int64)
+    ids[x.data_ptr()] = z
+    ids.setdefault("keep", []).append(x)
+    return x
+
+
+def run_key_block(which, sep, spelled_kw, locked, orig_t, sets):
+    ids = {}
+    orig = ktree_td(orig_t, ids)
+    if locked:
+        orig.lock_()
+    a, k = ((), {"separator": sep}) if spelled_kw else ((sep,), {})
+    fw = call(lambda: getattr(orig, which)(*a, **k))
+    if fw[0] != "ok":
+        return "fwd-raise"
+
+    def block():
+        with getattr(orig, which)(*a, **k) as y:
+            for key, z in sets:
+                kk = key if isinstance(key, str) else (tuple(key) if len(key) > 1 else key[0])
+                if y.is_locked:
+                    y.unlock_()
+                y.set(kk, _kleaf(z, ids))
+    r = call(block)
+    if r[0] != "ok":
+        return "raise"
+    return ["ok", td_tree(orig, ids)]
+
+
+def check_key_blocks(R, ok):
+    """(1) separator.join / key.split / `separator in key` on generated paths; (2) whole blocks on key trees: custom
+    separators (also of several characters), keys that contain the separator, empty nested nodes, added flat / nested names"""
+    sj = []
+    for _ in range(250 if R.quick else 4000):
+        sep = R.rng.choice(_SEPS)
+        p = [R.rng.choice(_ATOMS + ["", "a", "aa", ".", "_x"]) for _ in range(R.rng.randint(1, 4))]
+        sj.append((sep, p))
+    lines = [sx([Sym("splitjoin"), sep, list(p)]) for sep, p in sj]
+    mres = R.model(lines) if ok else [None] * len(lines)
+    for (sep, p), m in zip(sj, mres):
+        k = sep.join(p)
+        case = {"op": "splitjoin", "stream": "splitjoin", "sep": sep, "path": p}
+        R.case(("splitjoin", sep, tuple(p)), nontrivial=len(p) > 1)
+        R.count("splitjoin:" + ("roundtrip" if k.split(sep) == p else "no-roundtrip"))
+        R.traces += 1
+        if m is None:
+            continue
+        obs = [k, sep in k, k.split(sep), k.split(sep) if sep in k else [k]]
+        mm = [m[0], m[1] == "t", list(m[2]), list(m[3])]
+        if obs != mm:
+            R.mismatch("splitjoin", case, obs, mm)
+        # the model's side condition must be exactly "split gives the components back"
+        if (m[4] == "t") != (k.split(sep) == p):
+            R.mismatch("splitjoin-clean-path", case, k.split(sep) == p, m[4])
+        if m[5] == "t" and len(sep) == 1 and k.split(sep) != p:
+            R.mismatch("splitjoin-no-sep-inside", case, k.split(sep), m[5])
+    cases = []
+    for _ in range(300 if R.quick else 5000):
+        cnt = [0]
+        which = R.rng.choice(["flatten_keys", "unflatten_keys"])
+        sep = R.rng.choice(_SEPS)
+        locked = R.rng.random() < 0.4
+        if which == "flatten_keys":
+            orig = gen_key_tree(R.rng, 2, cnt)
+            sets = []
+            for _ in range(R.rng.choice([0, 1, 1, 2])):
+                cnt[0] += 1
+                nm = R.rng.choice(["z", "a", sep.join(["p", "q", "r"]), sep.join(["n", "b"]), sep.join(["n", "znew"]), "a.b", sep + "x"])
+                sets.append((nm, 100 + cnt[0]))
+        else:
+            orig = {}
+            for _ in range(R.rng.randint(0, 4)):
+                cnt[0] += 1
+                nm = sep.join(R.rng.choice(_ATOMS[:5]) for _ in range(R.rng.choice([1, 1, 2, 3])))
+                orig[nm] = ["leaf", cnt[0]]
+            sets = []
+            for _ in range(R.rng.choice([0, 1, 1, 2])):
+                cnt[0] += 1
+                sets.append((R.rng.choice([["z"], ["a"], ["n", "c"], ["p", "q"], ["a", "b"]]), 100 + cnt[0]))
+        cases.append((which, sep, R.rng.random() < 0.5, locked, orig, sets))
+    lines = [sx([Sym(w + "_block"), sep, bool(lk), ktree_sx(o),
+                 [[(k if isinstance(k, str) else list(k)), [Sym("leaf"), z]] for k, z in sets]])
+             for (w, sep, kw, lk, o, sets) in cases]
+    mres = R.model(lines) if ok else [None] * len(lines)
+    for ci, ((w, sep, kw, lk, o, sets), m) in enumerate(zip(cases, mres)):
+        case = {"op": w, "stream": "key-block", "sep": sep, "kw": kw, "locked": lk, "orig": o, "sets": sets}
+        R.case(("key-block", w, sep, kw, lk, json.dumps(o), json.dumps(sets)), nontrivial=bool(o) or bool(sets),
+               sample=case if ci % 101 == 0 else None)
+        R.count(f"key-block:{w}:{'locked' if lk else 'unlocked'}")
+        R.count("key-block:sep-len%d" % len(sep))
+        R.traces += 1
+        obs = run_key_block(w, sep, kw, lk, o, sets)
+        R.count("key-block:" + (obs if isinstance(obs, str) else "ok"))
+        if m is None:
+            continue
+        mm = m if isinstance(m, str) else ["ok", model_tree(m[1])]
+        same = mm == obs and (isinstance(mm, str) or list(mm[1]) == list(obs[1]))
+        if not same:
+            R.mismatch("key-block", case, obs, mm)
+
+
 def replay_protocol(c):
     obs = run_protocol_case(c["locked"], c["last_op"], c["prog"])[0]
     print("implementation:", json.dumps(obs))
@@ -932,6 +1233,12 @@ def replay(body):
         return replay_elem(c)
     if c.get("stream") == "protocol":
         return replay_protocol(c)
+    if c.get("stream") == "key-block":
+        print("implementation:", json.dumps(run_key_block(c["op"], c["sep"], c["kw"], c["locked"], c["orig"], [tuple(x) for x in c["sets"]])))
+        return 0
+    if c.get("stream") == "writeback-tree":
+        print("implementation:", json.dumps(run_writeback_tree_case(c["locked"], c["out"], c["inv"])))
+        return 0
     if c.get("stream") == "writeback":
         print("implementation:", json.dumps(run_writeback_case(c["locked"], c["out"], c["inv"])))
         return 0
